@@ -110,8 +110,14 @@ impl<'a, P: for<'p> Protocol<'p>> DemoWriter<'a, P> {
 
         // Build snap.
         for (item, id) in items {
-            self.builder
-                .add_item(item.obj_type_id(), id, item.encode())?;
+            if let Err(e) = self
+                .builder
+                .add_item(item.obj_type_id(), id, item.encode())
+            {
+                // Don't leak the items added so far into the next snapshot.
+                self.builder = mem::take(&mut self.builder).finish().recycle();
+                return Err(e.into());
+            }
         }
 
         let old_snap = mem::take(&mut self.snap);
